@@ -1009,7 +1009,9 @@ func (s *search) dirChildren(ctx context.Context, br blob.Ref) (map[blob.Ref]str
 	ch := make(chan blob.Ref)
 	errch := make(chan error)
 	go func() {
-		errch <- s.h.index.GetDirMembers(ctx, br, ch, s.q.Limit)
+		// All of them: the query's limit bounds the number of results, not
+		// the number of children a directory constraint gets to look at.
+		errch <- s.h.index.GetDirMembers(ctx, br, ch, -1)
 	}()
 	children := make(map[blob.Ref]struct{})
 	for child := range ch {
